@@ -2,7 +2,7 @@
    and followed by Print Assumptions (audited by ./check on every run). *)
 From V.lib Require Import Base.
 From V.c05 Require Import C05Model C05FragModel C05OptProofs C05HistProofs C05LazyProofs
-  C05OffProofs C05GhostProofs C05ReadProofs C05RoundProofs.
+  C05OffProofs C05GhostProofs C05ReadProofs C05RoundProofs C05CodecModel C05CodecProofs.
 
 (* OptimizeTfhdTrun, then encode/decode of the trun (structure level: wire_trun), then
    AddSampleDefaultValues with ANY trex (or none) gives back exactly the samples of the trun, for all
@@ -27,6 +27,20 @@ Theorem C05_optimize_pinned_refuted : exists tf tr tx tf' tr',
   resolve tf' tx (wire_trun tr') <> tr_samples tr.
 Proof. exact optimize_pinned_refuted. Qed.
 Print Assumptions C05_optimize_pinned_refuted.
+
+(* ---------------------------------------------------------------- box codecs (byte level) *)
+(* DecodeTrun / DecodeTrunSR applied to the bytes written by TrunBox.Encode give the wire view used by the
+   theorems above and below (absent fields 0, first-sample-flags given to sample 1, write order not stored),
+   for every trun whose fields fit their wire widths *)
+Theorem C05_trun_codec : forall t,
+  trun_wf t = true -> dec_trun (trun_size t) (enc_trun_body t) = Ok (wire_trun t).
+Proof. exact dec_enc_trun. Qed.
+Print Assumptions C05_trun_codec.
+
+Theorem C05_tfhd_codec : forall h,
+  tfhd_wf h = true -> dec_tfhd (enc_tfhd_body h) = Ok (wire_tfhd h).
+Proof. exact dec_enc_tfhd. Qed.
+Print Assumptions C05_tfhd_codec.
 
 (* ---------------------------------------------------------------- histories (fold over the op list) *)
 (* CreateFragment(seq,T) followed by ANY sequence of the six add operations (those addressing another track id
@@ -204,3 +218,10 @@ Proof.
   split; [repeat constructor|]. split; [split; [cbn; lia|reflexivity]|].
   eexists; eexists. split; [vm_compute; reflexivity|]. split; [vm_compute; reflexivity|]. vm_compute. reflexivity.
 Qed.
+
+Example C05_trun_codec_ex :
+  let t := mkTrun 1 2565 124 33554432 [mkSample 7 10 3 (-5); mkSample 7 20 4 2147483647] 3 in
+  trun_wf t = true /\ tfhd_wf (mkTfhd 131128 2 0 1 10 0 16842752) = true /\
+  dec_trun (trun_size t) (enc_trun_body t)
+    = Ok (mkTrun 1 2565 124 33554432 [mkSample 33554432 0 3 (-5); mkSample 0 0 4 2147483647] 0).
+Proof. vm_compute. repeat split. Qed.
